@@ -1341,8 +1341,8 @@ def leg_malformed_grid(ctx, spec, rng):
         ("normalize wrong dim", lambda: g.normalize_point(wrong(k + 1), reflect=rng.random() < 0.5), DimensionError),
         ("contains wrong dim", lambda: g.contains_point(wrong(d + 1)), DimensionError),
         ("distance wrong dim", lambda: g.distance(wrong(k + 1), wrong(k + 1)), DimensionError),
-        ("random point too close", lambda: g.get_random_point(boundary_distance=0.5 * minL, avoid_center=True)
-         if spec["cls"] not in ("unit", "cartesian") else g.get_random_point(boundary_distance=0.5 * minL), RuntimeError),
+        ("random point too close", lambda: g.get_random_point(boundary_distance=0.51 * minL, avoid_center=True)
+         if spec["cls"] not in ("unit", "cartesian") else g.get_random_point(boundary_distance=0.51 * minL), RuntimeError),
         # (integrate does not validate the data shape on grids whose cell volumes are all scalars: data of
         #  shape N+1 is summed silently - observation, outside the property, see notes/C12.md)
         ("integrate axis out of range", lambda: g.integrate(np.zeros(spec["shape"]), axes=[k]), ValueError),
@@ -1463,6 +1463,8 @@ def run(ctx):
         ctx.hist("grid-class", f"{cls}/{len(spec['shape'])}axes/{mode}")
         ctx.hist("cells", "x".join(str(n) for n in spec["shape"]))
         all_legs(ctx, P, spec, rng, full=(i % 3 != 0))
+        if (i + 1) % 1000 == 0:
+            P.run()          # bounded memory: compare and drop the pending cases
     _guard(ctx, "coordmaps", None, lambda: leg_coordmaps(ctx, P, rng, ctx.budget(600, 10000)))
     _guard(ctx, "malformed", None, lambda: leg_malformed(ctx, rng))
     P.run()
